@@ -2269,6 +2269,8 @@ struct Gen {
     allow_stale_file: bool,
     allow_root_attr: bool,
     allow_split_move: bool,
+    /// lenient loads may carry a SHORT-NAME that is no identifier ("1a", "a-b"): accepted with a warning, later operations meet it
+    allow_bad_names: bool,
     /// template parts built without a `dump` after every request (one `dump` at their end instead)
     quiet_build: bool,
 }
@@ -3190,9 +3192,24 @@ impl Gen {
             }
             Some(out)
         }));
-        let Ok(Some(text)) = made else { return };
+        let Ok(Some(mut text)) = made else { return };
         let j = self.ck.w.files.len();
-        let strict = !relabel && self.rng.chance(1, 2);
+        let mut strict = !relabel && self.rng.chance(1, 2);
+        if self.allow_bad_names && self.rng.chance(2, 3) {
+            // one item name of the document (and the path segments that use it) becomes a text that is no identifier: a lenient
+            // load accepts it with a warning; the operations that follow meet paths that no value check accepts
+            let present: Vec<&str> = UNIVERSE.iter().copied().filter(|n| text.contains(&format!("<SHORT-NAME>{n}</SHORT-NAME>"))).collect();
+            if !present.is_empty() {
+                let n = present[self.rng.below(present.len())];
+                let bad = if self.rng.chance(1, 2) { format!("1{n}") } else { format!("{n}-x") };
+                text = text
+                    .replace(&format!("<SHORT-NAME>{n}</SHORT-NAME>"), &format!("<SHORT-NAME>{bad}</SHORT-NAME>"))
+                    .replace(&format!("/{n}/"), &format!("/{bad}/"))
+                    .replace(&format!("/{n}<"), &format!("/{bad}<"));
+                strict = false;
+                *self.stats.entry("load.bad_name".to_string()).or_insert(0) += 1;
+            }
+        }
         let a = self.m(format!("load m0 {} {} {}", hx(&format!("l{j}.arxml")), strict as u8, hx(&text)));
         if !strict && a.starts_with("ok") && j < self.ck.w.files.len() {
             // a lenient load may have accepted content that the label of the document does not permit
@@ -3650,7 +3667,8 @@ fn spawn_history(seed: u64, kind: Kind, thorough: bool, prop: Option<String>) ->
         let mut flag = |pct: u64| rng.chance(pct, 1000);
         let (a, b, c, d, e, f, f2, f3, f4) = (flag(15), flag(15), flag(15), flag(7), flag(15), flag(12), flag(12), flag(12), flag(12));
         let with_load = flag(500);
-        sh2.lock().unwrap().flags = [(a, "collision"), (b, "ancestor-move"), (c, "mixed-cdata"), (d, "remove-self"), (e, "dangling-rename"), (f, "last-file"), (f2, "stale-file"), (f3, "root-attr"), (f4, "split-move")].iter().filter(|x| x.0).map(|x| x.1).collect::<Vec<_>>().join("+");
+        let f5 = flag(100) && matches!(prop.as_deref(), None | Some("C03" | "C04" | "C05" | "C06" | "C10" | "C11" | "C12"));
+        sh2.lock().unwrap().flags = [(a, "collision"), (b, "ancestor-move"), (c, "mixed-cdata"), (d, "remove-self"), (e, "dangling-rename"), (f, "last-file"), (f2, "stale-file"), (f3, "root-attr"), (f4, "split-move"), (f5, "bad-names")].iter().filter(|x| x.0).map(|x| x.1).collect::<Vec<_>>().join("+");
         let mut g = Gen {
             rng,
             ck: Checker::new(prop, kind),
@@ -3662,7 +3680,7 @@ fn spawn_history(seed: u64, kind: Kind, thorough: bool, prop: Option<String>) ->
             stats: BTreeMap::new(),
             scope: None,
             allow_collision: a,
-            allow_load: with_load,
+            allow_load: with_load || f5,
             allow_ancestor: b,
             allow_mixed: c,
             allow_rmself: d,
@@ -3671,6 +3689,7 @@ fn spawn_history(seed: u64, kind: Kind, thorough: bool, prop: Option<String>) ->
             allow_stale_file: f2,
             allow_root_attr: f3,
             allow_split_move: f4,
+            allow_bad_names: f5,
             quiet_build: false,
         };
         let r = catch_unwind(AssertUnwindSafe(|| g.history()));
